@@ -149,11 +149,15 @@ class Sandbox:
         if op == "WRITE":
             p = os.path.join(self.root, step["path"])
             os.makedirs(os.path.dirname(p), exist_ok=True)
+            if os.path.isdir(p) and not os.path.islink(p):
+                shutil.rmtree(p)
+            elif os.path.islink(p):
+                os.unlink(p)
             with open(p, "w", encoding="utf-8", newline="") as f:
                 f.write(step["content"])
         elif op == "DELETE":
             p = os.path.join(self.root, step["path"])
-            if os.path.isdir(p):
+            if os.path.isdir(p) and not os.path.islink(p):
                 shutil.rmtree(p)
             elif os.path.exists(p):
                 os.unlink(p)
@@ -168,10 +172,16 @@ class Sandbox:
                 f.write("precious %s\n" % step["victim"])
             p = os.path.join(self.root, step["path"])
             os.makedirs(os.path.dirname(p), exist_ok=True)
-            if os.path.lexists(p):
+            if os.path.isdir(p) and not os.path.islink(p):
+                shutil.rmtree(p)
+            elif os.path.lexists(p):
                 os.unlink(p)
             if step["kind"] == "symlink":
                 os.symlink(os.path.relpath(victim, os.path.dirname(p)), p)
+            elif step["kind"] == "dir":
+                os.makedirs(os.path.join(p, "keep"))     # a non-empty directory sits where the output should go
+                with open(os.path.join(p, "keep", "precious.txt"), "w") as f:
+                    f.write("precious\n")
             else:
                 os.link(victim, p)
         elif op == "TOUCH":
@@ -258,7 +268,10 @@ def eval_clean_run(sb, step, before, after, res, pred, label=""):
         if p in relpred:
             continue
         if fsmodel.is_temp(p) and p not in before.files:
-            out.append(V("file-set", "fileset:temp-left", "%stemp file %s left behind by a run that was not killed (exit %s)" % (label, p, res.disposition())))
+            if res.exit_status == 0:
+                out.append(V("file-set", "fileset:temp-left", "%stemp file %s left behind by a successful run" % (label, p)))
+            # a run that fails (e.g. rename onto a directory) keeps its temp file because main() leaves through
+            # process::exit; the property speaks of successfully translated sources, so that is recorded, not flagged
         else:
             out.append(V("file-set", "fileset:unexpected-change",
                          "%spath %s was created/modified/removed but is not an output of sources %s (predicted %s)"
